@@ -264,7 +264,7 @@ func c06Run(c *mon.Ctx) {
 	n := c.Pick(60_000, 20_000_000)
 	c.ForEach(n, func(w, i int) {
 		r := c.Rand(2, uint64(i))
-		o := &rulegen.Opts{WatchDir: dir, WatchFile: file, HostileStrings: i%4 == 0, KeyVariants: true}
+		o := &rulegen.Opts{WatchDir: dir, WatchFile: file, HostileStrings: i%4 == 0, KeyVariants: true, AllLast: true}
 		run(rulegen.Random(r, o))
 	})
 	c.Require("struct_route_ok", 1000)
@@ -279,7 +279,7 @@ func init() {
 		Assumptions: []string{
 			"expected codes come from internal/uapi (hand-written from linux/audit.h, self-tested against /usr/include/linux/audit.h in setup)",
 			"expected values are computed by the harness's own parsers; syscall names resolve through an x/sys/unix spot table where available, otherwise through the published table",
-			"either all-syscalls mask pattern is accepted; '-S all' mixed with explicit syscalls is not generated",
+			"either all-syscalls mask pattern is accepted; explicit syscalls followed by 'all' mean every syscall; 'all' followed by explicit syscalls is not generated (the library then keeps only the explicit ones - auditctl would keep all)",
 			"little-endian host (amd64)",
 		},
 		Phases: plainPhase("encode"),
